@@ -283,6 +283,16 @@ for _pid, _t in EXTRA5.items():
     _ref, _text, _tech = CLAIMS[_pid]
     CLAIMS[_pid] = (_ref, _text + _t, _tech)
 
+EXTRA6 = {
+    "C07": " Seeded round i: anything kept in the manager while counting is dropped by every writer of the literal weights.",
+    "C10": " Seeded round i: a window delivers its content with a send that cannot drop it.",
+    "C14": " Seeded round i: the loaders' comment scanner keeps the nesting depth of quoted triples.",
+    "C15": " Seeded round i: in union the merged stores and the translation cache are written by the re-encoder only.",
+}
+for _pid, _t in EXTRA6.items():
+    _ref, _text, _tech = CLAIMS[_pid]
+    CLAIMS[_pid] = (_ref, _text + _t, _tech)
+
 NA = {}
 
 PENDING = "check not implemented yet in this revision (see DESIGN.md for the planned rules)"
